@@ -108,7 +108,7 @@ def main():
         "hooks": {
             "guard": "verif",
             "enable": "go build/test -tags verif (bin/check always passes -tags verif when compiling /repo)",
-            "baseline_off_cmd": f"cd /repo && {GOENV} go test -vet=off -count=1 -timeout 25m ./...",
+            "baseline_off_cmd": f"cd /repo && {GOENV} go test -json -vet=off -count=1 -timeout 25m ./...",
             "source_commits": HOOK_COMMITS,
             "add_only": True,
         },
